@@ -473,12 +473,26 @@ fn load_toplevel_items_(
                     // import. We don't need to load the namespace
                     // again, but we do need to add the values to the
                     // current namespace.
-                    let imported_ns = env.get_namespace(&abs_path).unwrap();
-                    insert_imported_namespace(
-                        import_info.namespace_sym.as_ref(),
-                        Rc::clone(&namespace),
-                        imported_ns,
-                    );
+                    match env.get_namespace(&abs_path) {
+                        Some(imported_ns) => {
+                            insert_imported_namespace(
+                                import_info.namespace_sym.as_ref(),
+                                Rc::clone(&namespace),
+                                imported_ns,
+                            );
+                        }
+                        None => {
+                            // We've seen this path before but couldn't
+                            // read or parse it, so there's no namespace.
+                            // The error was already reported the first
+                            // time.
+                            insert_placeholder_namespace(
+                                abs_path.clone(),
+                                import_info.namespace_sym.as_ref(),
+                                Rc::clone(&namespace),
+                            );
+                        }
+                    }
 
                     continue;
                 }
